@@ -28,6 +28,8 @@ type fakeBeh struct {
 	CutAfterRegs int // close the session after this many registrations (0 = never)
 	ReqWorkConns int // ask for work connections right after login and never start them
 	Tag          string
+	// IgnoreFirstReg: the first NewProxy of every name gets no reply at all (pings are still answered)
+	IgnoreFirstReg bool
 }
 
 var benign = fakeBeh{Login: "accept", PongOK: -1, AnswerRegs: -1}
@@ -40,6 +42,7 @@ type sessRec struct {
 
 	mu           sync.Mutex
 	regs         map[string]int64
+	regSeen      map[string][]int64 // every NewProxy per name, answered or not
 	nRegs        int
 	pingAt       []int64
 	pongAt       []int64 // stamps before each valid pong was written
@@ -169,7 +172,7 @@ func (f *fakeCtl) onLogin(fs *h.FakeServer, l *msg.Login) (*msg.LoginResp, bool)
 	}
 	id := fmt.Sprintf("b%dx%d", f.idx, f.seq)
 	f.ids = append(f.ids, id)
-	rec := &sessRec{N: f.seq, Beh: b, LoginAt: h.Now(), regs: map[string]int64{}}
+	rec := &sessRec{N: f.seq, Beh: b, LoginAt: h.Now(), regs: map[string]int64{}, regSeen: map[string][]int64{}}
 	f.sess = append(f.sess, rec)
 	f.byID[id] = rec
 	f.mu.Unlock()
@@ -234,6 +237,10 @@ func (f *fakeCtl) onSession(s *h.FakeSession) {
 				rec.silentFrom = now
 			}
 			if silent() {
+				break
+			}
+			rec.regSeen[v.ProxyName] = append(rec.regSeen[v.ProxyName], now)
+			if b.IgnoreFirstReg && len(rec.regSeen[v.ProxyName]) == 1 {
 				break
 			}
 			rec.regs[v.ProxyName] = now
